@@ -102,7 +102,11 @@ class Inst:
         self.cdir = os.path.join(L.dir, self.name, "cd")
         self.clog = os.path.join(L.dir, self.name, "crash.log")
         env = {"LD_PRELOAD": _state["so"], "VERIF_CRASH_PREFIX": self.cdir + "/", "VERIF_CRASH_LOG": self.clog}
-        conf = "cache_dir rock %s %d max-size=4000000\ndebug_options ALL,1 47,2\n" % (self.cdir, CACHE_MB)
+        self.store = store
+        if store == "rock":
+            conf = "cache_dir rock %s %d max-size=4000000\ndebug_options ALL,1 47,2\n" % (self.cdir, CACHE_MB)
+        else:       # ufs / aufs: oracle-only runs (no model): small directory fan-out keeps squid -z fast
+            conf = "cache_dir %s %s %d 4 4 max-size=4000000\ndebug_options ALL,1 47,2\n" % (store, self.cdir, CACHE_MB)
         self.sq = lab.Squid(L, conf, 0, env, self.name, "0 MB", "acl PURGE method PURGE\n", "http_access allow all")
         with _lock:
             L.procs.append(self.sq)
@@ -110,8 +114,11 @@ class Inst:
         shutil.chown(self.cdir, "nobody")
 
     def rebuilt(self, timeout=30):
-        return _wait(lambda: "Finished rebuilding" in self.sq.log_tail(4000) or not self.sq.alive(), timeout, 0.05) \
+        return _wait(lambda: "Finished rebuilding" in self.sq.log_tail(6000) or not self.sq.alive(), timeout, 0.05) \
             and self.sq.alive()
+
+    def nwrites(self):
+        return len(_log_lines(self.clog))
 
     def main_writes(self):
         """(slot, len) of the cache-file writes of the squid processes after -z (the -z process writes the db header)"""
@@ -262,7 +269,8 @@ def run_one(L, s):
     """drive one scenario; returns the observation line"""
     org = _state["org"]
     sid = s["_sid"]
-    it = Inst(L, "s")
+    store = s.get("dir", "rock")
+    it = Inst(L, "s", store)
     sq = it.sq
     cal = _state["cal"]
     try:
@@ -298,7 +306,16 @@ def run_one(L, s):
                 except OSError:
                     r = None
                 expected += -(-(o["prefix"] + o["size"]) // cal["P"])
-                _wait(lambda: len(it.main_writes()) >= expected or not sq.alive(), 3.0)
+                if store == "rock":
+                    _wait(lambda: len(it.main_writes()) >= expected or not sq.alive(), 3.0)
+                else:       # ufs: object file pages + swap.state record; wait until the write log is quiet
+                    seen = [it.nwrites(), time.time()]
+                    def quiet():
+                        k2 = it.nwrites()
+                        if k2 != seen[0]:
+                            seen[0], seen[1] = k2, time.time()
+                        return not sq.alive() or time.time() - seen[1] > 0.25
+                    _wait(quiet, 3.0)
             else:
                 try:
                     r, raw = lab.get(sq.port, url, method="PURGE", total=10.0)
@@ -321,6 +338,8 @@ def run_one(L, s):
             sq.stop()            # clean shutdown: SIGTERM, shutdown_lifetime 0
             writes = it.main_writes()
         wtxt = ",".join("%d:%d" % w for w in writes) or "-"
+        if store != "rock":
+            wtxt = "-"          # the write trace of ufs is not modelled
         for v in ("VERIF_CRASH_AT", "VERIF_CRASH_PARTIAL"):
             sq.env.pop(v, None)
         open(sq.cache_log, "w").close()
@@ -563,7 +582,7 @@ def run(res, tier):
         std.run_lab(res, PID, tier, area="diskcrash", gens=["diskcrash"], gen_scenarios=gen_scenarios,
                     run_impl=run_impl, to_case=to_case, oracle=oracle,
                     corr_name="DiskcrashModel (writes, rebuild, hit) vs the running squid",
-                    n_quick=24, n_thorough=600, seed_salt=16,
+                    n_quick=18, n_thorough=600, seed_salt=16,
                     kind_fn=kind_fn, nontrivial_fn=lambda s, o: " | " in o)
     finally:
         _state.clear()
